@@ -12,7 +12,7 @@ TITLE = "Degree claims"
 LEVEL_TEXT = (
     "the complete transfer table of all 23 operators (opcode -> interval wrapper -> degree function, 100 range pairs each) is read"
     " from the source by abstract evaluation and compared with the polynomial-degree calculus; Ord/min/max/merge laws; operand"
-    " discipline of every expression kind; environment seeds; CS0013 threshold."
+    " discipline of every expression kind; environment seeds; CS0013 threshold. The environment-reading and joining arms (Variable, Access, Update, Phi, SwitchOp, InlineArray) and the parameter seeds of Cfg::propagate_degrees are evaluated on table worlds."
 )
 NOT_DECIDED = "nothing about values; degree facts that depend on SSA/CFG correctness (C12-C14)."
 TRUSTED = ["syn parser", "finite-function evaluator (rules/finfun.py)", "degree calculus oracle (DESIGN App. C)", "required-operand table (DESIGN App. C)"]
